@@ -634,6 +634,29 @@ func generate(c *drv.Ctx) {
 			}
 		}
 	}
+	// (i') the same with wildcard entries that carry parameters ("a/*; charset=utf-8", "*/*;charset=utf-8"):
+	//      every list of <=2 entries over a pool that mixes them with concrete and plain wildcard entries
+	wildPool := []entry{{mt{"a", "*"}, 1}, {mt{"*", "*"}, 2}, {mt{"a", "*"}, 3}, {mt{"a", "x"}, 0}, {mt{"b", "y"}, 0}, {mt{"a", "*"}, 0}}
+	for _, l := range lists(wildPool, 2) {
+		hasParamWildcard := false
+		for _, e := range l {
+			hasParamWildcard = hasParamWildcard || (e.P > 0 && e.S == "*")
+		}
+		if !hasParamWildcard {
+			continue // already covered by (i)
+		}
+		for _, df := range defaults {
+			d := descriptor(l, df, all, []string{"op", "global"}[idx%2])
+			d["exhaustive"] = true
+			if idx%3 == 2 {
+				d["api"] = "generated"
+			}
+			d["wire"] = idx%4 == 0
+			d["rot"] = idx
+			c.Case(d)
+			idx++
+		}
+	}
 	c.Extra["exhaustive_apis"] = idx
 	c.Extra["exhaustive_requests_per_api"] = len(exhaustiveHeaders()) * len(bodies)
 	// (ii) seeded: larger lists, other parameter spellings on entries, random header spellings, all methods,
@@ -643,7 +666,8 @@ func generate(c *drv.Ctx) {
 		nRand = 6000
 	}
 	bigPool := append([]entry{}, entryPool...)
-	bigPool = append(bigPool, entry{mt{"a", "y"}, 2}, entry{mt{"b", "x"}, 3}, entry{mt{"b", "*"}, 0}, entry{mt{"b", "y"}, 0}, entry{mt{"application", "octet-stream"}, 1})
+	bigPool = append(bigPool, entry{mt{"a", "y"}, 2}, entry{mt{"b", "x"}, 3}, entry{mt{"b", "*"}, 0}, entry{mt{"b", "y"}, 0}, entry{mt{"application", "octet-stream"}, 1},
+		entry{mt{"a", "*"}, 1}, entry{mt{"*", "*"}, 3}, entry{mt{"b", "*"}, 2})
 	for n := 0; n < nRand; n++ {
 		var l []entry
 		for k := c.Rng.Intn(6); k > 0; k-- {
